@@ -415,3 +415,56 @@ func (s *vStoreLite) Set(ctx context.Context, id string, b []byte) error {
 	s.m[id] = append([]byte{}, b...)
 	return nil
 }
+
+// A nested graph that declares no state of its own works on the enclosing graph's state; interrupted inside and
+// resumed, its updates still reach that one state object (nothing is applied to a private copy).
+func VerifC11ParentState() {
+	ctx := context.Background()
+	vcfg("fifo", 1)
+	vcfg("selectfirst", 1)
+	_ = RegisterSerializableType[c11Deep]("c11_deep")
+	d1, d2, d3 := vsymInt("d1"), vsymInt("d2"), vsymInt("d3")
+	bump := func(key string, d int) *Lambda {
+		return InvokableLambda(func(ctx context.Context, in map[string]any) (map[string]any, error) {
+			err := ProcessState(ctx, func(ctx context.Context, s *c11Deep) error { s.N += d; return nil })
+			return map[string]any{key: 1}, err
+		})
+	}
+	final := -1
+	build := func(interrupts bool, store CheckPointStore) (Runnable[map[string]any, map[string]any], error) {
+		sub := NewGraph[map[string]any, map[string]any]() // no state of its own
+		_ = sub.AddLambdaNode("s1", bump("s1", d1))
+		_ = sub.AddLambdaNode("s2", bump("s2", d2))
+		_ = sub.AddEdge(START, "s1")
+		_ = sub.AddEdge("s1", "s2")
+		_ = sub.AddEdge("s2", END)
+		g := NewGraph[map[string]any, map[string]any](WithGenLocalState(func(ctx context.Context) *c11Deep { return &c11Deep{} }))
+		var o []GraphAddNodeOpt
+		if interrupts {
+			o = append(o, WithGraphCompileOptions(WithInterruptBeforeNodes([]string{"s2"})))
+		}
+		_ = g.AddGraphNode("sub", sub, o...)
+		_ = g.AddLambdaNode("after", InvokableLambda(func(ctx context.Context, in map[string]any) (map[string]any, error) {
+			err := ProcessState(ctx, func(ctx context.Context, s *c11Deep) error { s.N += d3; final = s.N; return nil })
+			return in, err
+		}))
+		_ = g.AddEdge(START, "sub")
+		_ = g.AddEdge("sub", "after")
+		_ = g.AddEdge("after", END)
+		var copts []GraphCompileOption
+		if interrupts {
+			copts = append(copts, WithCheckPointStore(store))
+		}
+		return g.Compile(ctx, copts...)
+	}
+	store := &vStoreLite{m: map[string][]byte{}}
+	r, err := build(true, store)
+	vassert(err == nil, "graph compiles")
+	in := map[string]any{"in": 1}
+	_, e1 := r.Invoke(ctx, in, WithCheckPointID("ps"))
+	_, ok := ExtractInterruptInfo(e1)
+	vassert(ok, "the nested graph interrupts before s2")
+	_, e2 := r.Invoke(ctx, in, WithCheckPointID("ps"))
+	vassert(e2 == nil, "the resumed run completes")
+	vassert(final == d1+d2+d3, "every update made through the nested graph, before and after the interrupt, reaches the enclosing graph's state")
+}
